@@ -118,7 +118,7 @@ fn mutate(dest: &Path, rng: &mut Rng, kind: u64) -> String {
         _ = filetime::set_file_times(p, ft, ft);
     };
     let pick = |rng: &mut Rng| -> &'static str { *rng.pick(&["a", "d/c", "d/e/f", "d/zeros", "g"]) };
-    match kind % 16 {
+    match kind % 17 {
         0 => "identical".into(),
         1 => {
             // same size, other content, same mtime: only verification can notice
@@ -213,6 +213,26 @@ fn mutate(dest: &Path, rng: &mut Rng, kind: u64) -> String {
             std::fs::remove_dir_all(dest.join("d/e")).unwrap();
             _ = symlink(&victim, dest.join("d/e"));
             "dir-replaced-by-symlink-to-outside-dir d/e".into()
+        }
+        16 => {
+            // a random subset of the 64-byte chunks of a multi-chunk file overwritten (same size, new mtime): restore takes the
+            // intact chunks from the existing file and the others from the packs
+            let f = *rng.pick(&["a", "d/e/f", "d/zeros", "g"]);
+            let p = dest.join(f);
+            let mut d = std::fs::read(&p).unwrap();
+            let n = d.len().div_ceil(64);
+            let mut hit = Vec::new();
+            for c in 0..n {
+                if rng.chance(1, 2) {
+                    hit.push(c);
+                    let end = ((c + 1) * 64).min(d.len());
+                    for b in &mut d[c * 64..end] {
+                        *b ^= 0x5A;
+                    }
+                }
+            }
+            std::fs::write(&p, &d).unwrap();
+            format!("chunks-overwritten {f} {hit:?}")
         }
         _ => {
             // several at once
@@ -334,7 +354,7 @@ pub fn run(a: &Args) {
                     "opts":o,"snap":[],"pre":[],"post":[],"outside_pre":[],"outside_post":[]}));
                 continue;
             }
-            let mk = c + rng.below(16);
+            let mk = c + rng.below(17);
             what = mutate(&dest, &mut rng, mk);
         }
         let pre = project(&dest);
